@@ -7,6 +7,9 @@ use a5::projections::dodecahedron::DodecahedronProjection;
 use std::panic::{catch_unwind, AssertUnwindSafe};
 
 pub fn silence_panics() {
+    if std::env::var("A5_SHOW_PANICS").is_ok() {
+        return;
+    }
     std::panic::set_hook(Box::new(|_| {}));
 }
 
